@@ -1,12 +1,21 @@
 """C14 — linear complexity is the true shortest-LFSR length in every implementation.
 
-Correspondence of FOUR implementations against the Lean model (Model/BM.lean):
+Correspondence of FOUR implementations against the Lean model (Model/BM.lean), and of the two
+C++ builds ALSO against their own word-level models (Model/BMCpp.lean):
 
   native    Python  berlekamp_massey.LinearComplexityNative        op bm.native
   wrapper   Python  berlekamp_massey.LinearComplexity (-> C++)      op bm.wrapper
-  portable  C++     LfsrLengthStr, portable variant (no -D)         op bm.cpp
-  clmul     C++     LfsrLengthStr, built with -mpclmul -msse2 -D__CLMUL__   op bm.cpp
+  portable  C++     LfsrLengthStr, portable variant (no -D)         op bm.cpp + bm.cpp_portable
+  clmul     C++     LfsrLengthStr, built with -mpclmul -msse2 -D__CLMUL__   op bm.cpp + bm.cpp_clmul
   (setup    C++     built with the flags setup.py passes; recorded which variant that is)
+
+bm.cpp is the big-integer routine `bmLength` (what the C++ code is PROVED to compute,
+Props/C14Cpp.lean); bm.cpp_portable / bm.cpp_clmul mirror berlekamp_massey.cc word by word
+(uint64 vectors sb, sc, tb, tc, the shifts with carries, clmul as shift-and-xor, byte packing).
+The model of the intrinsic (`bm.clmul x y`) is compared with the repo's own inline
+`clmul(x, y, &hi, &lo)` — exported from a translation unit that #includes berlekamp_massey.cc
+built with -D__CLMUL__ (shims.ClmulProbe), i.e. the real PCLMULQDQ instruction — and `pred`
+checks that against a Python shift-and-xor reference.
 
 plus LfsrCount / LfsrLogProbability (ops bm.count, bm.logprob).
 
@@ -32,8 +41,14 @@ META = dict(
         'C++ variants are built from the working tree by harness/shims.py with g++ '
         '(portable: no flags; clmul: -mpclmul -msse2 -D__CLMUL__; setup: -mpclmul as setup.py) '
         'and called through ctypes on LfsrLengthStr (stands in for the pybind11 module)',
-        'the C++ code is tied to the model ONLY by differential runs (ASan/UBSan builds in the '
-        'thorough tier); it is not modelled word by word',
+        'the C++ code is modelled word by word (Model/BMCpp.lean: portable and CLMUL variants, '
+        'packing, entry points) and each build is compared with its own word-level model and with '
+        'the big-integer routine on every input of this run (ASan/UBSan builds in the thorough tier)',
+        '_mm_clmulepi64_si128(x, y, 0x00) / vmull_p64 = carry-less product of two 64-bit words as '
+        'defined by BMCpp.clmul (shift-and-xor over the 64 bits of x): SPECIFICATION of the '
+        'intrinsic, not derived; the instruction itself runs inside the clmul build',
+        'C `int` arithmetic in berlekamp_massey.cc modelled with unbounded naturals: exact for '
+        'n <= 2^30 (2 * lfsr_len cannot overflow); word-level models are run for n <= 2^15',
     ],
     assumptions=[
         'Model/BM.lean mirrors berlekamp_massey.py (LinearComplexityNative line by line; '
@@ -212,6 +227,23 @@ def to_bytes(s, length):
   return s.to_bytes((length + 7) // 8, 'little')
 
 
+# word-level models of the two C++ variants (Model/BMCpp.lean)
+WORD_MODEL = {'portable': 'bm.cpp_portable', 'clmul': 'bm.cpp_clmul'}
+WORD_MODEL_MAX = 1 << 15      # the list-of-words models are quadratic like the C++ code
+
+
+def word_line(v, ba, n):
+  return '%s %s %s' % (WORD_MODEL[v], ba.hex() or '[]', H(n))
+
+
+def clmul_ref(x, y):
+  r = 0
+  for i in range(64):
+    if (x >> i) & 1:
+      r ^= y << i
+  return r
+
+
 def add_all(b, im, s, length, tag, variants=('portable', 'clmul')):
   """the four implementations on a well-formed (s, length): 0 <= s < 2^length."""
   hs, hl = H(s), H(length)
@@ -228,9 +260,12 @@ def add_all(b, im, s, length, tag, variants=('portable', 'clmul')):
     r = im.cpp(v, ba, length)
     if r is None:
       continue
-    b.add(line, r, tag=v + ':' + tag,
-          pred=lc_pred(lambda v=v, ba=ba: im.libs[v].LfsrLength(ba, length), s, length),
-          info=dict(info, impl=v), nontrivial=length > 1)
+    pred = lc_pred(lambda v=v, ba=ba: im.libs[v].LfsrLength(ba, length), s, length)
+    b.add(line, r, tag=v + ':' + tag, pred=pred, info=dict(info, impl=v), nontrivial=length > 1)
+    if v in WORD_MODEL and length <= WORD_MODEL_MAX:
+      # the same C++ answer against the word-level model of THIS variant
+      b.add(word_line(v, ba, length), r, tag=v + '-words:' + tag, pred=pred,
+            info=dict(info, impl=v), nontrivial=length > 1)
 
 
 # ----------------------------------------------------------------------------
@@ -497,10 +532,13 @@ def correspondence(rep, rng, tier):
             if r is None:
               continue
             inrange = 0 <= n <= 8 * nbytes
+            pred = (lc_pred(lambda v=v, ba=ba, n=n: im.libs[v].LfsrLength(ba, n),
+                            s & ((1 << n) - 1), n) if inrange else None)
             b.add('bm.cpp %s %s %s' % (H(nbytes), H(s), H(n)), r,
-                  tag=v + (':bytes' if inrange else ':n-out-of-range'),
-                  pred=(lc_pred(lambda v=v, ba=ba, n=n: im.libs[v].LfsrLength(ba, n),
-                                s & ((1 << n) - 1), n) if inrange else None),
+                  tag=v + (':bytes' if inrange else ':n-out-of-range'), pred=pred,
+                  info=dict(kind='cpp', impl=v, s=hex(s), nbytes=nbytes, length=n))
+            b.add(word_line(v, ba, n), r,
+                  tag=v + ('-words:bytes' if inrange else '-words:n-out-of-range'), pred=pred,
                   info=dict(kind='cpp', impl=v, s=hex(s), nbytes=nbytes, length=n))
   for length in (-1, -2, -7, -8, -9, -64, -(1 << 40)):
     for s in (0, 1, 255, 256):
@@ -572,6 +610,38 @@ def correspondence(rep, rng, tier):
            pred=lpred, info=dict(kind='logprob', n=n, m=m), nontrivial=tagc != 'outside')
   rep.absorb(b, b.run())
   rep.absorb(bl, bl.run())
+
+  # --- 5b. the model of the intrinsic against the repo's clmul() (real instruction)
+  b = Batch('bm.clmul')
+  try:
+    probe = shims.ClmulProbe()
+  except Exception as e:  # noqa  (no PCLMULQDQ / PMULL on this machine)
+    probe = None
+    rep.notes.append('clmul probe not built (%r): bm.clmul compared with the Python '
+                     'shift-and-xor reference only' % (e,))
+  for k in range(4000 if thorough else 1000):
+    kind = k % 5
+    if kind == 0:
+      x, y = rng.getrandbits(64), rng.getrandbits(64)
+    elif kind == 1:
+      x, y = 1 << rng.randrange(64), rng.getrandbits(64)
+    elif kind == 2:
+      x, y = rng.getrandbits(64), 1 << rng.randrange(64)
+    elif kind == 3:
+      x, y = rng.choice([0, 1, 2 ** 63, 2 ** 64 - 1]), rng.choice([0, 1, 2 ** 63, 2 ** 64 - 1])
+    else:
+      x, y = rng.getrandbits(rng.randrange(1, 65)), rng.getrandbits(rng.randrange(1, 65))
+    r = clmul_ref(x, y)
+    hi, lo = probe.clmul(x, y) if probe else (r >> 64, r & (2 ** 64 - 1))
+
+    def ipred(x=x, y=y, r=r, hi=hi, lo=lo):
+      if (hi << 64) | lo != r:
+        return 'clmul(%#x, %#x) = (%#x, %#x), carry-less product is %#x' % (x, y, hi, lo, r)
+      return None
+    b.add('bm.clmul %s %s' % (H(x), H(y)), '%s,%s' % (H(hi), H(lo)),
+          tag=['random', 'x-monomial', 'y-monomial', 'extreme', 'short'][kind], pred=ipred,
+          info=dict(kind='clmul', x=hex(x), y=hex(y)))
+  rep.absorb(b, b.run())
 
   # --- 6. the Spec definitions themselves (textbook recursion, brute-force shortest LFSR) against
   #        the harness' independent references: validates that Spec/Lfsr.lean says what we mean
@@ -653,6 +723,8 @@ def sanitizer_run(rep, rng):
     for (hx, n, s), r in zip(cases, out):
       b.add('bm.cpp %s %s %s' % (H(len(hx) // 2), H(s), H(n)), H(r), tag=v + ':asan',
             info=dict(kind='cpp', impl=v + '+asan', s=hex(s), nbytes=len(hx) // 2, length=n))
+      b.add(word_line(v, bytes.fromhex(hx), n), H(r), tag=v + '-words:asan',
+            info=dict(kind='cpp', impl=v + '+asan', s=hex(s), nbytes=len(hx) // 2, length=n))
   os.remove(cfile)
   rep.extra['sanitizer'] = res
   if b.items:
@@ -716,6 +788,11 @@ def replay(d):
     n, m = info['n'], info['m']
     got, want = im.bm.LfsrCount(n, m), true_counts(n).get(m, 0) if 0 <= n <= 14 else None
     what = None if want is None or got == want else 'LfsrCount(%d,%d)=%d, true count %d' % (n, m, got, want)
+  elif kind == 'clmul':
+    x, y = int(info['x'], 16), int(info['y'], 16)
+    hi, lo = shims.ClmulProbe().clmul(x, y)
+    what = (None if (hi << 64) | lo == clmul_ref(x, y) else
+            'clmul(%#x, %#x) = (%#x, %#x), carry-less product is %#x' % (x, y, hi, lo, clmul_ref(x, y)))
   else:
     print('replay: nothing to re-run for', d.get('kind'), d.get('op'))
     return 2
